@@ -78,21 +78,21 @@ end
 
 /-- the whole definition of the fragment named `n` has been walked on behalf of `cur`, and the
     spreads written in it are in `V` -/
-def FragDone (sv : SV) (d : QueryDoc) (cur : Option OperationDef) (es : List Event) (V : List Name) (n : Name) : Prop :=
+def FragDoneL (sv : SV) (d : QueryDoc) (cur : Option OperationDef) (es : List Event) (V : List Name) (n : Name) : Prop :=
   ∃ f, fragForName d n = some f ∧ HasDirArgs sv cur es f.dirs ∧
     (∀ p' y, InSelsW sv (sv.type? f.typeCond) f.sel p' y → NodeDone sv cur es p' y) ∧
     (∀ nm' f', SpreadInSels f.sel nm' → fragForName d nm' = some f' → nm' ∈ V)
 
-theorem FragDone.mono {sv : SV} {d : QueryDoc} {cur : Option OperationDef} {es es' : List Event} {V V' : List Name}
-    {n : Name} (h : FragDone sv d cur es V n) (hs : ∀ e ∈ es, e ∈ es') (hV : V ⊆ V') : FragDone sv d cur es' V' n := by
+theorem FragDoneL.mono {sv : SV} {d : QueryDoc} {cur : Option OperationDef} {es es' : List Event} {V V' : List Name}
+    {n : Name} (h : FragDoneL sv d cur es V n) (hs : ∀ e ∈ es, e ∈ es') (hV : V ⊆ V') : FragDoneL sv d cur es' V' n := by
   obtain ⟨f, hf, h1, h2, h3⟩ := h
   exact ⟨f, hf, h1.mono hs, fun p' y hi => (h2 p' y hi).mono hs, fun nm' f' a b => hV (h3 nm' f' a b)⟩
 
 /-- (C2) of the header -/
 def WalkC2 (sv : SV) (d : QueryDoc) (cur : Option OperationDef) (ws : WS) (r : WS × List Event) : Prop :=
-  ws.visited ⊆ r.1.visited ∧ ∀ n ∈ r.1.visited, n ∈ ws.visited ∨ FragDone sv d cur r.2 r.1.visited n
+  ws.visited ⊆ r.1.visited ∧ ∀ n ∈ r.1.visited, n ∈ ws.visited ∨ FragDoneL sv d cur r.2 r.1.visited n
 
-def JumpC (sv : SV) (d : QueryDoc) (cur : Option OperationDef) (J : Jump) : Prop :=
+def JumpCL (sv : SV) (d : QueryDoc) (cur : Option OperationDef) (J : Jump) : Prop :=
   ∀ parent sels (ws : WS) r, J parent sels ws = some r →
     (∀ p' y, InSelsW sv parent sels p' y → NodeDone sv cur r.2 p' y) ∧ WalkC2 sv d cur ws r ∧
     ∀ nm f, SpreadInSels sels nm → fragForName d nm = some f → nm ∈ r.1.visited
@@ -101,7 +101,7 @@ section
 variable {sv : SV} {d : QueryDoc}
 
 mutual
-  theorem walkSelection_c (cur : Option OperationDef) (J : Jump) (hJ : JumpC sv d cur J) :
+  theorem walkSelection_cL (cur : Option OperationDef) (J : Jump) (hJ : JumpCL sv d cur J) :
       ∀ (x : Selection) (parent : Option Definition) (ws : WS) r, walkSelection sv d cur J parent x ws = some r →
         (∀ p' y, InSelW sv parent x p' y → NodeDone sv cur r.2 p' y) ∧ WalkC2 sv d cur ws r ∧
         ∀ nm f, SpreadIn x nm → fragForName d nm = some f → nm ∈ r.1.visited
@@ -113,7 +113,7 @@ mutual
       · rename_i r3 h3
         injection h with h
         subst h
-        obtain ⟨c1, ⟨m, a⟩, b⟩ := walkSelections_c cur J hJ sub _ _ r3 h3
+        obtain ⟨c1, ⟨m, a⟩, b⟩ := walkSelections_cL cur J hJ sub _ _ r3 h3
         simp only [walkDirectives_visited, walkArgs_visited, markSel_visited] at m a
         refine ⟨fun p' y hi => ?_, ⟨m, fun n hn => ?_⟩, fun nm' f hs hf => ?_⟩
         · cases hi with
@@ -138,7 +138,7 @@ mutual
       · rename_i r3 h3
         injection h with h
         subst h
-        obtain ⟨c1, ⟨m, a⟩, b⟩ := walkSelections_c cur J hJ sub _ _ r3 h3
+        obtain ⟨c1, ⟨m, a⟩, b⟩ := walkSelections_cL cur J hJ sub _ _ r3 h3
         simp only [walkDirectives_visited, markSel_visited] at m a
         refine ⟨fun p' y hi => ?_, ⟨m, fun n hn => ?_⟩, fun nm' f hs hf => ?_⟩
         · cases hi with
@@ -199,7 +199,7 @@ mutual
             subst h
             obtain ⟨c1, ⟨m, a⟩, b⟩ := hJ _ _ _ r3 h3
             simp only [walkDirectives_visited, markSel_visited] at m a
-            have hfd : FragDone sv d cur
+            have hfd : FragDoneL sv d cur
                 ((walkDirectives sv cur (sv.type? f.typeCond) dirs locFragmentSpread (ws.markSel p.start)).2 ++
                   (walkDirectives sv cur (sv.type? f.typeCond) f.dirs locFragmentDefinition
                     { (walkDirectives sv cur (sv.type? f.typeCond) dirs locFragmentSpread (ws.markSel p.start)).1 with
@@ -225,7 +225,7 @@ mutual
               · exact Or.inr (h1.mono (fun e he => List.mem_append_left _ (List.mem_append_right _ he)) (fun _ h => h))
             · rw [hself nm' hs, ← hname]
               exact m List.mem_cons_self
-  theorem walkSelections_c (cur : Option OperationDef) (J : Jump) (hJ : JumpC sv d cur J) :
+  theorem walkSelections_cL (cur : Option OperationDef) (J : Jump) (hJ : JumpCL sv d cur J) :
       ∀ (xs : Selections) (parent : Option Definition) (ws : WS) r, walkSelections sv d cur J parent xs ws = some r →
         (∀ p' y, InSelsW sv parent xs p' y → NodeDone sv cur r.2 p' y) ∧ WalkC2 sv d cur ws r ∧
         ∀ nm f, SpreadInSels xs nm → fragForName d nm = some f → nm ∈ r.1.visited
@@ -247,8 +247,8 @@ mutual
         · rename_i r2 h2
           injection h with h
           subst h
-          obtain ⟨c1, ⟨m1, a1⟩, b1⟩ := walkSelection_c cur J hJ x parent ws r1 h1
-          obtain ⟨c2, ⟨m2, a2⟩, b2⟩ := walkSelections_c cur J hJ rest parent r1.1 r2 h2
+          obtain ⟨c1, ⟨m1, a1⟩, b1⟩ := walkSelection_cL cur J hJ x parent ws r1 h1
+          obtain ⟨c2, ⟨m2, a2⟩, b2⟩ := walkSelections_cL cur J hJ rest parent r1.1 r2 h2
           refine ⟨fun p' y hi => ?_, ⟨fun n hn => m2 (m1 hn), fun n hn => ?_⟩, fun nm f hs hf => ?_⟩
           · cases hi with
             | head _ _ _ _ _ hx => exact (c1 p' y hx).mono (sub_inl _)
@@ -264,12 +264,12 @@ mutual
             | tail _ _ _ hx => exact b2 nm f ⟨ds, q, hx⟩ hf
 end
 
-theorem walkLevel_c (cur : Option OperationDef) : ∀ n, JumpC sv d cur (walkLevel sv d cur n)
+theorem walkLevel_cL (cur : Option OperationDef) : ∀ n, JumpCL sv d cur (walkLevel sv d cur n)
   | 0 => by intro _ _ _ _ h; simp [walkLevel] at h
   | n + 1 => by
     intro parent sels ws r h
     simp only [walkLevel] at h
-    exact walkSelections_c cur _ (walkLevel_c cur n) sels parent ws r h
+    exact walkSelections_cL cur _ (walkLevel_cL cur n) sels parent ws r h
 
 end
 
@@ -350,9 +350,9 @@ theorem walkOperation_done (sv : SV) (d : QueryDoc) (k : Nat) (op : OperationDef
     injection h with h
     subst h
     simp only [walkLevel] at h4
-    obtain ⟨c1, ⟨_, a⟩, b⟩ := walkSelections_c (some op) _ (walkLevel_c (some op) k) op.sel _ _ r4 h4
+    obtain ⟨c1, ⟨_, a⟩, b⟩ := walkSelections_cL (some op) _ (walkLevel_cL (some op) k) op.sel _ _ r4 h4
     simp only [walkDirectives_visited, walkVarDefsB_visited] at a
-    have hvis : ∀ n ∈ r4.1.visited, FragDone sv d (some op) r4.2 r4.1.visited n := by
+    have hvis : ∀ n ∈ r4.1.visited, FragDoneL sv d (some op) r4.2 r4.1.visited n := by
       intro n hn
       rcases a n hn with h1 | h1
       · cases h1
@@ -403,7 +403,7 @@ theorem walkFragment_done (sv : SV) (d : QueryDoc) (k : Nat) (f : FragmentDef) (
     injection h with h
     subst h
     simp only [walkLevel] at h2
-    obtain ⟨c1, _, _⟩ := walkSelections_c (d := d) none _ (walkLevel_c none k) f.sel _ _ r2 h2
+    obtain ⟨c1, _, _⟩ := walkSelections_cL (d := d) none _ (walkLevel_cL none k) f.sel _ _ r2 h2
     exact ⟨(walkDirectives_hasArgs none _ f.dirs _ _).mono (fun e he => List.mem_append_left _ (List.mem_append_left _ he)),
       fun p' y hi => (c1 p' y hi).mono (fun e he => List.mem_append_left _ (List.mem_append_right _ he))⟩
 
